@@ -26,7 +26,8 @@ Definition pv_list (l : list (string * bool)) : pval :=
 Definition sleep_off : list (string * bool) :=
   [("sleep_enabled", false); ("enable_sleep", false);
    ("sleep_enabled and m.ntendon > 0", false);
-   ("m.opt.enableflags & types.EnableBit.SLEEP", false)].
+   ("m.opt.enableflags & types.EnableBit.SLEEP", false);
+   ("m.opt.enableflags & types.EnableBit.SLEEP and (not m.opt.disableflags & types.DisableBit.ISLAND)", false)].
 
 (* no user callbacks installed (arbitrary user Python has no footprint) *)
 Definition callbacks_off : list (string * bool) :=
